@@ -48,6 +48,15 @@ LaneVerdictD(d, ib, laneNo) ==
            ELSE [v |-> "ok", bc |-> d.chips[1].bc]
 LaneVerdict(bytes, ib, laneNo) == LaneVerdictD(Decode(bytes), ib, laneNo)
 
+\* ---- readout flags of the chip trailers (statistics only: they never change a verdict) ----
+\* [trailers, busy violation 1000, data overrun 1100, transmission in fatal 1110, else: flushed incomplete x1xx, strobe extended xx1x, busy transition xxx1]
+NoFlags == << 0, 0, 0, 0, 0, 0, 0 >>
+FlagsOf(b) == IF b = 184 THEN << 1, 1, 0, 0, 0, 0, 0 >> ELSE IF b = 188 THEN << 1, 0, 1, 0, 0, 0, 0 >> ELSE IF b = 190 THEN << 1, 0, 0, 1, 0, 0, 0 >>
+              ELSE << 1, 0, 0, 0, Bit(b, 2), Bit(b, 1), Bit(b, 0) >>
+AddFlags(a, b) == [k \in 1..7 |-> a[k] + b[k]]
+RECURSIVE SumFlags(_, _)
+SumFlags(ts, k) == IF k > Len(ts) THEN NoFlags ELSE AddFlags(FlagsOf(ts[k]), SumFlags(ts, k + 1))
+
 ExpectLanes(barrel) == CASE barrel = "IB" -> 3 [] barrel = "ML" -> 8 [] barrel = "OL" -> 14
 IbGroups == { {0, 1, 2}, {3, 4, 5}, {6, 7, 8} }
 ===============================================================================
